@@ -465,10 +465,11 @@ _ADDED = {
     'C03': 'half of the histories place the elements in the heap and in three mapped arenas more than 4 GiB apart',
     'C04': 'per history the one-byte key of an element sits in byte 0 or in byte 1 behind a byte that is mostly NUL (comparator, model and search probe follow); typed macro spellings (A_VEC_PUSH_BACK ... A_BUF_SEARCH) alternate with the functions',
     'C06': 'bytes >= 0x80 are passed to catc half of the time the way a signed char promotes (negative; 0xFF = -1); a_str_setm_ sets the capacity exactly (shrink to fit or a little above the length)',
+    'C08': 'a general class whose first-column pivot candidates agree to a relative 2^-21 .. 2^-50 in either order and sign (the larger has to win: multipliers stay <= 1)',
     'C09': 'the integer class also holds infinite entries: a cell whose terms contain one is that infinity, cells whose value is indeterminate (inf * 0, inf - inf) are not judged',
     'C10': 'further argument classes: both components independently from a pool of named constants (e, 2, 10, pi, pi/2, ln 2, sqrt 2, 1/e, ...); for pow_real exponents at the limits of the integer types (+-2^31, 2^31+-1, 2^32, 2^15, 2^16, 2^24, ...) with the base within exp(+-600/|s|) of the unit circle, judged with the closed-form condition |s||f|(1+|log z|) and only while |s| u <= 2^-10',
     'C11': 'the norms are asked again with the same arguments after an in-place change of the last component (the value follows the data, not the pointer)',
-    'C12': 'one table object may be registered for both inputs (me == mec); a twin controller is stepped m times with one constant sample and the results discarded, against the same steps with every result used',
+    'C12': 'one table object may be registered for both inputs (me == mec); a twin controller is stepped m times with one constant sample and the results discarded, against the same steps with every result used; in the exact class one integrator clamp in twelve is a small multiple of ki moved outwards by 2^-30, with small integer errors, so that sums land exactly on the integer next to the clamp',
     'C13': 'one table object may be registered for both inputs (me == mec)',
     'C14': 'the lattice class includes bell moves of length zero that reverse their velocity (feasible whenever v0 + v1 < 0)',
     'C16': '(tf) primed samples whose results are discarded followed by a loop over one constant sample, against the reference recurrence',
